@@ -228,8 +228,10 @@ pub fn run_batch(spec: &PropertySpec, seed: u64, thorough: bool, runs: u64, max_
                 crate::alloc::set_run(i);
                 slots[w].1.store(t0.elapsed().as_millis() as u64, Ordering::Relaxed);
                 slots[w].0.store(i + 1, Ordering::Relaxed);
+                RUNNING[w % 64].store(i + 1, Ordering::Relaxed);
                 let r = run_seeded(spec, seed, i, thorough, describe);
                 slots[w].0.store(0, Ordering::Relaxed);
+                RUNNING[w % 64].store(0, Ordering::Relaxed);
                 let mut a = acc.lock().unwrap();
                 a.evals += 1;
                 let sh = attosim::hash_bytes(r.report.shape.as_bytes());
@@ -296,6 +298,69 @@ pub fn run_batch(spec: &PropertySpec, seed: u64, thorough: bool, runs: u64, max_
 }
 
 pub const HANG_SECS: u64 = 90;
+
+/// run index + 1 that each worker is executing right now (0 = none): read by the death note below
+pub static RUNNING: [AtomicU64; 64] = [const { AtomicU64::new(0) }; 64];
+
+extern "C" {
+    fn signal(signum: i32, handler: usize) -> usize;
+    fn write(fd: i32, buf: *const u8, count: usize) -> isize;
+}
+
+extern "C" fn death_note(sig: i32) {
+    // async-signal-safe: no allocation, no locks - format the running indices by hand
+    let mut buf = [0u8; 1024];
+    let mut p = 0usize;
+    for b in b"DIED runs=" {
+        buf[p] = *b;
+        p += 1;
+    }
+    let mut first = true;
+    for slot in RUNNING.iter() {
+        let v = slot.load(Ordering::Relaxed);
+        if v == 0 {
+            continue;
+        }
+        if !first && p < 1000 {
+            buf[p] = b',';
+            p += 1;
+        }
+        first = false;
+        let mut d = [0u8; 20];
+        let mut i = 20;
+        let mut x = v - 1;
+        if x == 0 {
+            i -= 1;
+            d[i] = b'0';
+        }
+        while x > 0 {
+            i -= 1;
+            d[i] = b'0' + (x % 10) as u8;
+            x /= 10;
+        }
+        for b in &d[i..] {
+            if p < 1000 {
+                buf[p] = *b;
+                p += 1;
+            }
+        }
+    }
+    buf[p] = b'\n';
+    p += 1;
+    unsafe {
+        write(2, buf.as_ptr(), p);
+        // back to the default action: abort() raises the signal again after the handler returns
+        signal(sig, 0);
+    }
+}
+
+/// When the process is about to die of an abort (a stack overflow or a failed allocation inside the
+/// library under test - std turns both into SIGABRT), say which runs were being executed.
+pub fn install_death_note() {
+    unsafe {
+        signal(6, death_note as usize);
+    }
+}
 
 /// replay file that names a run by (seed, index) only - used when the run cannot be completed
 /// in-process (hang, abort)
